@@ -583,6 +583,20 @@ static int err_code(const std::string &m)
     return 99;
 }
 
+// a generator that returns given draws (cyclically): boundary values of the stream on demand
+struct ScriptGen
+{
+    std::vector<double> d;
+    size_t pos = 0;
+    std::time_t seed = 0;   // what the entry point copies into the report
+    double operator()()
+    {
+        double x = d.empty() ? 0.0 : d[pos % d.size()];
+        pos++;
+        return x;
+    }
+};
+
 template <class V, class W, class D, class Aff, class Init>
 void op_run_t(size_t K, Cur &c, Out &o)
 {
@@ -646,13 +660,37 @@ void op_run_t(size_t K, Cur &c, Out &o)
         else
             labels.assign(order.size() + (lprior == 2 ? 2 : 0), order[0]);
     }
+    // optional: the draws the generator returns (cyclically) instead of the mt19937 stream of the seed (size_t records only)
+    std::vector<double> draws;
+    if (c.p < c.t.size())
+        draws = c.flts();
     utils::RandomGenerator<> rng{(std::time_t)seed};
     Recorder rec(o, tr, script, (maxit + 9) / 10);
     verif::set_observer(&rec);
     try
     {
-        utils::Report rep = multitensor_factorization<D, Aff, Init>(
-            r.starts, r.ends, r.weights, nr, maxit, nconv, labels, u, v, aff, rng);
+        utils::Report rep;
+        if constexpr (std::is_same_v<V, size_t> && std::is_same_v<W, size_t>)
+        {
+            if (!draws.empty())
+            {
+                ScriptGen sg;
+                sg.d = draws;
+                sg.seed = (std::time_t)seed;
+                rep = multitensor_factorization<D, Aff, Init>(
+                    r.starts, r.ends, r.weights, nr, maxit, nconv, labels, u, v, aff, sg);
+            }
+            else
+                rep = multitensor_factorization<D, Aff, Init>(
+                    r.starts, r.ends, r.weights, nr, maxit, nconv, labels, u, v, aff, rng);
+        }
+        else
+        {
+            if (!draws.empty())
+                throw std::logic_error("scripted draws need size_t labels and weights");
+            rep = multitensor_factorization<D, Aff, Init>(
+                r.starts, r.ends, r.weights, nr, maxit, nconv, labels, u, v, aff, rng);
+        }
         verif::set_observer(nullptr);
         // the observer wrote trace fields first; results follow
         o.kv("err", "0");
@@ -892,17 +930,6 @@ static void op_runshared(Cur &c, Out &o)
 // `initf kind assort K L ncalls <draws> <list>` — the three initialisers of initialization.hpp called directly with
 // a generator that returns the given draws (cyclically), `ncalls` times in a row on the same generator and, for the
 // functors, the same functor object.  kind r / f: `list` is the caller's tensor; kind m: L rows, `list` = row indices.
-struct ScriptGen
-{
-    std::vector<double> d;
-    size_t pos = 0;
-    double operator()()
-    {
-        double x = d.empty() ? 0.0 : d[pos % d.size()];
-        pos++;
-        return x;
-    }
-};
 
 template <class Aff>
 void op_initf_aff(const std::string &kind, size_t K, size_t L, size_t ncalls, ScriptGen &g, Cur &c, Out &o)
